@@ -67,6 +67,19 @@ def do_call(ex, node, st):
         if isinstance(recv.kind, KRef):
             from .extract import mangle
             fi = ex.find_method(recv.kind.cls, mangle(f.attr, ex.fi.cls))
+            if fi is None and "%s.%s" % (recv.kind.cls, f.attr) in ex.ctx.reg.abstract_fields:
+                # a function-valued field (HMM.Q, HMM.P): an abstract function of its scalar arguments; arguments that
+                # are objects (the track) are assumed not to influence it beyond their identity
+                args, _ = eval_args(ex, node, st)
+                zargs = []
+                for a in args:
+                    if isinstance(a.kind, (KFloat, KReal)):
+                        zargs.append(to_float(a)[1])
+                    elif a.terms:
+                        zargs.append(a.terms[0] if not isinstance(a.kind, KBool) else to_int(a))
+                fn = z3.Function(ex.ctx.reg.abstract_fields["%s.%s" % (recv.kind.cls, f.attr)],
+                                 *([x.sort() for x in zargs] + [z3.RealSort()]))
+                return vfloat(fn(*zargs))
             if fi is None:
                 raise OutOfSubset("no method %s.%s" % (recv.kind.cls, f.attr))
             args, kwargs = eval_args(ex, node, st)
@@ -327,6 +340,20 @@ def call_builtin(ex, name, node, st):
         return vfloat(mathlib.POW(x, y), or_(na, nb))
     if name in ("np.real", "np.imag") and isinstance(args[0].kind, KComplex):
         return vfloat(args[0].terms[0 if name.endswith("real") else 1])
+    if name == "np.argmin" and isinstance(args[0].kind, KList) and isinstance(args[0].kind.elem, (KFloat, KReal)):
+        # trusted model of numpy.argmin on a list of non-NaN floats: the first index of a minimum
+        l = args[0]
+        n = list_len(l)
+        chk("ValueError-argmin-of-empty", n > 0)
+        i = z3.Int(uid("am"))
+        chk("argmin-over-NaN", z3.ForAll([i], implies(and_(i >= 0, i < n), not_(to_float(list_get(l, i))[0]))))
+        r = z3.Int(uid("argmin"))
+        rv = to_float(list_get(l, r))[1]
+        ex.ctx.trusted_used.add("numpy.argmin")
+        ex.ctx.add_hyp(implies(n > 0, and_(r >= 0, r < n,
+                                          z3.ForAll([i], implies(and_(i >= 0, i < n), rv <= to_float(list_get(l, i))[1])),
+                                          z3.ForAll([i], implies(and_(i >= 0, i < r), rv < to_float(list_get(l, i))[1])))))
+        return vint(r)
     if name == "isinstance":
         return vbool(isinstance_(ex, args[0], node.args[1]))
     if name in ("np.zeros", "np.ones"):
